@@ -109,7 +109,7 @@ def main():
         ],
         "checks": checks,
         "not_applicable": na,
-        "notes": "exit 0 = held, 1 = VIOLATION line + replay file, 2 = tool error. VERIF_SEED seeds scenario generation and TLC simulation. KNOWN-FINDING lines come from known_findings.json (status known). Extensions of the specification beyond the listed properties (service composition, lambda reporter / immediate flush / rate limit / test sinks, #[derive(Entry)] / Flex / instrument, queue self-metrics) run as bin/vcheck X01..X04 and are described in DESIGN.md 9.8; they are not registered checks.",
+        "notes": "exit 0 = held, 1 = VIOLATION line + replay file, 2 = tool error. VERIF_SEED seeds scenario generation and TLC simulation. KNOWN-FINDING lines come from known_findings.json (status known). Extensions of the specification beyond the listed properties (service composition, lambda reporter / immediate flush / rate limit / test sinks, #[derive(Entry)] / Flex / instrument, queue self-metrics, time-source resolution and override scoping) run as bin/vcheck X01..X05 and are described in DESIGN.md 9.8; they are not registered checks.",
     }
     with open(os.path.join(VERIF, "MANIFEST.json"), "w") as f:
         json.dump(m, f, indent=1)
